@@ -8,8 +8,8 @@ PROP = "C01"
 BACKEND = "ir"
 DUMP = "ir"
 PROPS_FILE = "C01.v"
-COUNTS_QUICK = {"scancond": 40, "ifclear": 40, "framealias": 120, "mulcounter": 60, "loopio": 150, "nestuse": 100, "squares": 120, "uniform": 150, "macro": 350, "pressure": 60, "affine": 220, "bigconst": 20, "roam": 30, "diverge": 20}
-COUNTS_THOROUGH = {"scancond": 800, "ifclear": 800, "framealias": 3000, "mulcounter": 1500, "loopio": 4000, "nestuse": 3000, "squares": 3000, "uniform": 3000, "macro": 12000, "pressure": 2500, "affine": 6000, "bigconst": 300, "roam": 400, "diverge": 100}
+COUNTS_QUICK = {"evenstep": 40, "scancond": 40, "ifclear": 40, "framealias": 120, "mulcounter": 60, "loopio": 150, "nestuse": 100, "squares": 120, "uniform": 150, "macro": 350, "pressure": 60, "affine": 220, "bigconst": 20, "roam": 30, "diverge": 20}
+COUNTS_THOROUGH = {"evenstep": 800, "scancond": 800, "ifclear": 800, "framealias": 3000, "mulcounter": 1500, "loopio": 4000, "nestuse": 3000, "squares": 3000, "uniform": 3000, "macro": 12000, "pressure": 2500, "affine": 6000, "bigconst": 300, "roam": 400, "diverge": 100}
 LEVELS_QUICK = [0, 1, 2, 3, 4]
 LEVELS_THOROUGH = [0, 1, 2, 3, 4, 100]
 PROFILES = ("debug",)
